@@ -1,6 +1,7 @@
 package cachesim
 
 import (
+	"math"
 	"math/rand/v2"
 
 	"verifsim/core"
@@ -439,6 +440,10 @@ func GenPlan(profName string, seed uint64) *Plan {
 				return baseCost[k] * 2
 			}
 			return baseCost[k]
+		}
+		if g.p(15) {
+			// the far end of "arbitrary non-negative costs"
+			return g.pick64([]int64{math.MaxInt64, math.MaxInt64 - 55, math.MaxInt64 - 56, math.MaxInt64 - 57, 1 << 62})
 		}
 		switch g.n(10) {
 		case 0:
